@@ -102,7 +102,10 @@ Inductive message :=
 with failure :=
 | FStdout (h : helpreq)
 | FCompletion (s : bytes)
-| FStderr (m : message).       (* the message that `render` turned into text *)
+| FStderr (m : message) (d : option doc).
+  (* ParseFailure::Stderr(doc): `d` is the document Message::render built from `m` in the state and with the meta
+     of the command level that reports the failure (Model/Message.v; None = render panicked); `m` is kept as
+     a ghost for the theorems and the kind comparison *)
 
 (* ------------------------------------------------------------------ parser AST *)
 (* User closures are arbitrary total functions. *)
